@@ -225,6 +225,21 @@ func TestC07(t *testing.T) {
 			}, oracleC07)
 		})
 	}
+	if Thorough() {
+		// giants: a frame with 1.5 million / 2^22+3 list entries followed by an ordinary frame
+		t.Run("giant-streams", func(t *testing.T) {
+			i := 0
+			for _, g := range giantFrames() {
+				i++
+				if !MyShare(i) {
+					continue
+				}
+				c := &CaseStream{Items: []*Value{g, Skeleton("szse.SzseBinary", 0)}, Tail: HexBytes{1, 2, 3}}
+				Col.Case(Hash64([]byte("giant"), []byte(fmt.Sprint(i))), true, "giant-frame-in-stream(>16MiB)")
+				Direct(t, "C07", "c07", fmt.Sprintf("giant/%d", i), c, oracleC07)
+			}
+		})
+	}
 	// (ii) streams of mixed frames, per protocol
 	for mi, m := range ModuleIDs {
 		if !MyShare(mi) && EnvNShards() <= len(ModuleIDs) {
